@@ -241,13 +241,15 @@ func (b *Builder) TFlag(t types.Type) (flag abi.TFlag) {
 	case *types.Basic:
 		flag |= abi.TFlagNamed
 	case *types.Named:
-		return b.TFlag(t.Underlying()) | abi.TFlagNamed
+		// TFlagExtraStar describes the stored string of an unnamed pointer type;
+		// a defined type (type P *int) stores its own name.
+		return b.TFlag(t.Underlying())&^abi.TFlagExtraStar | abi.TFlagNamed
 	case *types.Struct:
 		if IsClosure(t) {
 			flag |= abi.TFlagClosure
 		}
 	case *types.Pointer:
-		if b.TFlag(t.Elem())&abi.TFlagExtraStar == 0 {
+		if !extraStar(t.Elem()) {
 			flag |= abi.TFlagExtraStar
 		}
 	case *types.Signature:
@@ -259,6 +261,16 @@ func (b *Builder) TFlag(t types.Type) (flag abi.TFlag) {
 		flag |= abi.TFlagRegularMemory
 	}
 	return
+}
+
+// extraStar reports whether t carries TFlagExtraStar: the unnamed pointer types
+// with an odd number of stars above their first non-pointer element. It does not
+// look through defined types, so it terminates on declarations like type N *N.
+func extraStar(t types.Type) bool {
+	if p, ok := types.Unalias(t).(*types.Pointer); ok {
+		return !extraStar(p.Elem())
+	}
+	return false
 }
 
 func (b *Builder) IsRegularMemory(t types.Type) bool {
